@@ -8,6 +8,7 @@ import (
 	"sync"
 
 	"github.com/deepteams/webp/internal/dsp"
+	"github.com/deepteams/webp/internal/verifhook"
 )
 
 // importUVWorker holds pre-allocated buffers for UV conversion goroutines.
@@ -757,6 +758,7 @@ func (enc *VP8Encoder) importImage(img image.Image) {
 	if isDirect && rg == nil {
 		// Fast parallel path for non-dithered direct pixel access (NRGBA/RGBA).
 		nWorkers := runtime.GOMAXPROCS(0)
+		nWorkers = verifhook.Workers(verifhook.SiteLossyImportY, nWorkers)
 		if nWorkers > padH {
 			nWorkers = padH
 		}
@@ -764,6 +766,7 @@ func (enc *VP8Encoder) importImage(img image.Image) {
 		for wi := 0; wi < nWorkers; wi++ {
 			startY := wi * padH / nWorkers
 			endY := (wi + 1) * padH / nWorkers
+			verifhook.Range(verifhook.SiteLossyImportY, startY, endY)
 			ywg.Add(1)
 			go func(startY, endY int) {
 				defer ywg.Done()
@@ -836,6 +839,7 @@ func (enc *VP8Encoder) importImage(img image.Image) {
 	if isDirect && rg == nil {
 		// Fast parallel path for non-dithered direct pixel access (NRGBA/RGBA).
 		nUVWorkers := runtime.GOMAXPROCS(0)
+		nUVWorkers = verifhook.Workers(verifhook.SiteLossyImportUV, nUVWorkers)
 		if nUVWorkers > halfPadH {
 			nUVWorkers = halfPadH
 		}
@@ -843,6 +847,7 @@ func (enc *VP8Encoder) importImage(img image.Image) {
 		for wi := 0; wi < nUVWorkers; wi++ {
 			startPair := wi * halfPadH / nUVWorkers
 			endPair := (wi + 1) * halfPadH / nUVWorkers
+			verifhook.Range(verifhook.SiteLossyImportUV, startPair, endPair)
 			uvwg.Add(1)
 			go func(startPair, endPair int) {
 				defer uvwg.Done()
@@ -1354,6 +1359,7 @@ func (enc *VP8Encoder) EncodeFrame() ([]byte, error) {
 	// - Method >= 3 (RD-based mode selection, which is the hot path)
 	// - Single-pass quality mode (no rate control iteration)
 	useParallel := runtime.GOMAXPROCS(0) > 1 && enc.mbH >= 4 && enc.config.Method >= 3 && !doSearch
+	useParallel = verifhook.Parallel(verifhook.SiteLossyUseParallel, useParallel)
 
 	var stats ProbaStats
 	for pass := 0; pass < maxPasses; pass++ {
